@@ -183,3 +183,14 @@ class Run:
               f"replayed/validated={cov['traces_validated_against_impl']} violations={len(self.violations)} "
               f"known={sum(self.known_hits.values())} wall={wall:.1f}s")
         return 1 if self.violations else 0
+
+
+def sample(items, n, salt=0):
+    """Deterministic pseudo-random subset of about n items (order kept).  A fixed stride would alias with the
+    period of the enumeration (e.g. 6 ladder options sampled with stride 3 never shows options 1, 2, 4, 5)."""
+    import random
+    if n >= len(items):
+        return list(items)
+    rnd = random.Random(seed() * 1000003 + salt)
+    idx = sorted(rnd.sample(range(len(items)), n))
+    return [items[i] for i in idx]
